@@ -577,7 +577,21 @@ def call_container_method(I: Interp, recv: SV, name: str, args, kwargs, fr: Fram
             st.setarr("dsz", z3.Store(st.arr("dsz"), r, 0))
             return const(None)
         if name == "update":
-            raise Refuse("dict.update")
+            # d.update(m) for a mapping with a concrete number of entries (a dict display): insert them in order
+            src = args[0] if args else None
+            if isinstance(src, SV) and T.strip_opt(src.ty).k == "dict" and not kwargs:
+                sr = smt.rid(src.t)
+                n = smt.simp(z3.Select(st.arr("dsz"), sr))
+                if z3.is_int_value(n) and n.as_long() <= 32:
+                    keys = z3.Select(st.arr("dkeys"), sr)
+                    get = z3.Select(st.arr("dget"), sr)
+                    vty = T.strip_opt(src.ty).a[1] if len(T.strip_opt(src.ty).a) > 1 else T.ANY
+                    kty = T.strip_opt(src.ty).a[0] if T.strip_opt(src.ty).a else T.ANY
+                    for j in range(n.as_long()):
+                        kt = smt.simp(z3.Select(keys, j))
+                        I.dict_set(recv, SV(kt, kty), SV(smt.simp(z3.Select(get, kt)), T.ANY if vty.k != "any" and False else T.ANY))
+                    return const(None)
+            raise Refuse("dict.update with a mapping of unknown size")
         if name == "copy":
             nr = st.new_ref(DICT_CID)
             for a in ("dhas", "dget", "dsz", "dkeys"):
@@ -609,7 +623,10 @@ def call_container_method(I: Interp, recv: SV, name: str, args, kwargs, fr: Fram
         if name in ("startswith", "endswith", "isdigit", "isnumeric"):
             return SV(smt.mk_bool(st.fresh("str_" + name, smt.B)), T.BOOL)
         if name == "split":
-            raise Refuse("str.split")
+            st.log.append("str.split(sep): a new non-empty list of opaque strings")
+            l = fresh_container(I, T.LIST(T.STR))
+            st.assume(z3.Select(st.arr("llen"), smt.rid(l.t)) >= 1)
+            return l
         raise Refuse(f"str.{name}")
     if k == "ext" and ty.a[0] in ("rng", "numpy.random._generator.Generator", "numpy.random.Generator"):
         if name == "integers":
